@@ -12,6 +12,13 @@ REQUIRED_BRANCHES = [
     "composite-noboost", "composite-boost",
     "hit-scored", "hit-multi-term", "hit-boosted-compound", "hit-constant-only", "stats-as-corpus", "matchset-nonempty",
     "op:lit", "op:const", "op:norm", "op:constant",
+    # phase 2: where the hypotheses come from
+    "den-zero-saturates", "den-zero-nan",             # the corner b = 1, dl = 0 on direct calls: freq >= 1 scores the weight, freq = 0 is NaN
+    "normrt-identity", "normrt-nan-quieted", "normrt-uint32-wrap",   # the norm decode chain on whole ranges of field lengths
+    "d-hit-scored", "d-stats-as-logical-corpus", "d-multi-segment", "d-single-segment", "d-pending-deletions", "d-no-pending-deletions",
+    "d-n-lt-N", "d-n-eq-N", "d-b1", "d-b0", "d-composite-field", "d-ice-v1", "d-ice-v2", "d-mem", "d-fs", "d-merging", "d-no-merging",
+    "dmatchset-nonempty", "op:dsearch", "op:normrt",
+    "score-none-zero", "score-none-nan",              # score mode "none": Score(0, 0) = 0 for b < 1 and NaN for b = 1 (reported, outside 1 <= f)
 ]
 
 ASSUMPTIONS = [
@@ -20,6 +27,15 @@ ASSUMPTIONS = [
     "math.Log vs libm log: values that are direct results of math.Log may differ by <= 4 ulp (measured per line, branch log-ulp<k>); everything computed from them is compared exactly",
     "a norm is the field length as a float32 bit pattern (ComputeNorm = Float32frombits(uint32(numTerms)), read back by Float32bits(float32(norm))): "
     "exact for every pattern that is not a NaN, i.e. field lengths outside [0x7f800001,0x7fffffff] and below 0xff800001 (checked by `norm` lines)",
+    "float32 -> float64 -> float32 is the identity on every bit pattern that is not a NaN and sets mantissa bit 22 of a NaN (IEEE-754 widening is exact; amd64 CVTSS2SD quiets): "
+    "`Bluge.BM25.f32RoundTrip` states this as a definition; `normrt` lines compare it with the real chain Float32bits(float32(float64(ComputeNorm(len)))) on EVERY length of "
+    "[0, 2^20) (thorough: [0, 2^26)), around the Inf/NaN patterns and across the uint32 wrap",
+    "the segment plugin (ice v1/v2, dependency code): per segment, the live postings of a term number at most the documents that have the field, and a segment with a live posting "
+    "has counted >= 1 token of the field (`SegStat.ok`); its CollectionStats.Merge adds the counters; postings carry the field length of `processDocument` (sum of Length() over the "
+    "same-named fields) and the frequency. Evaluated by the driver on every segment of every `dhit` (a recording wrapper around the plugin reports n, N, sumTotalTermFreq and the size "
+    "of the deleted bitmap per segment): bad:assumption-segment-n-le-N, bad:stats-not-sum-of-segments, bad:assumption-real-hit (= `RealHitOk` of the theorem is false)",
+    "field lengths below 2^31 - 2^23 tokens (the float32 +Inf pattern): beyond it `dlSeen` is not the identity (theorem `dl_seen_bound_needed`); fields of user-defined Field types "
+    "(the Field interface is public) may report any Length(); score mode \"none\" hands freq = 0, norm = 0 to the scorer (fact `freq-norm-loaded-unless-score-none`) and is outside 1 <= f",
     "term frequencies are non-negative (float64(freq) is modelled by the cast of a natural number)",
     "hypotheses of the theorems (0<k1, 0<=b<=1, 0<avgdl, 0<boost, 1<=n<=N<2^64, 1<=f, b<1 or 0<dl) are evaluated by the driver on every term node of every real hit; "
     "a hit outside them is reported as bad:assumption-…",
@@ -79,7 +95,9 @@ def search_after_break(ctx):
 LEVEL_TEXT = ("Lean 4 theorems over the reals about the translation of the scoring code (go/extract/c17.go regenerates lean/BlugeGen/C17.lean from "
               "search/similarity/*.go on every run; the same generated definitions are evaluated at IEEE binary64 by the model driver): positivity, saturation bound, "
               "strict monotonicity in freq / field length / document frequency, linearity in the boost, composite = boosted sum, explanation root = score (rfl, for every number type), "
-              "tf/score/sum/boost*sum nodes = their message formulas, idf node != its message formula for every N > n >= 1 (known finding)")
+              "tf/score/sum/boost*sum nodes = their message formulas, idf node != its message formula for every N > n >= 1 (known finding); "
+              "reachability of the hypotheses: n <= N, 0 < avgdl, 1 <= f <= dl derived for every real hit from per-segment sums (shape of the index code regenerated as fact tables), "
+              "the field-length pipeline (identity up to the float32 Inf pattern) and the analysed-document model, leaving one decidable predicate (RealHitOk) that the run evaluates on every hit")
 LEVEL_NOTE = ("trusted: Lean kernel + propext/Classical.choice/Quot.sound; the Go->Lean translator for the accepted subset (cross-checked bit for bit by the correspondence stream `score`); "
               "rounding is modelled (floats evaluated, not proved): strictness is claimed over the reals only, non-strict monotonicity is checked on the implementation's float results")
 TECHNIQUE = "Lean 4 proof (Mathlib reals) over a regenerated translation + differential correspondence run (direct similarity calls and real searches with/without ExplainScores)"
